@@ -21,6 +21,7 @@ import io
 import json
 import random
 import re
+import time
 
 from harness import bqlmini as bm
 from harness.core import MachineryError
@@ -656,6 +657,157 @@ def record_ledger_rel(ctx, f, conn, n, idbase):
     return lines
 
 
+class OutOfDomain(Exception):
+    pass
+
+
+def eqval(v):
+    """a value as an opaque pair [tag, text] such that two values are equal in Python iff their pairs are equal (what
+    membership in a list of values means): numbers of the three numeric types are one class (1 = 1.0 = TRUE), tuples
+    (amounts, positions, costs) and sets / lists / inventories are encoded element by element"""
+    if v is None:
+        return ['n', '']
+    if isinstance(v, (bool, int, decimal.Decimal)):
+        d = decimal.Decimal(int(v)) if isinstance(v, (bool, int)) else v
+        if not d.is_finite():
+            raise OutOfDomain(repr(v))
+        return ['num', str(d.normalize() + 0)]
+    if isinstance(v, str):
+        return ['s', v]
+    if isinstance(v, datetime.datetime):
+        raise OutOfDomain(repr(v))
+    if isinstance(v, datetime.date):
+        return ['date', v.isoformat()]
+    if isinstance(v, dict):          # Inventory: a mapping (currency, cost) -> position
+        return ['map', json.dumps(sorted([eqval(k), eqval(x)] for k, x in v.items()))]
+    if isinstance(v, (set, frozenset)):
+        return ['set', json.dumps(sorted(eqval(x) for x in v))]
+    if isinstance(v, tuple):
+        return ['tup:%s' % type(v).__name__, json.dumps([eqval(x) for x in v])]
+    if isinstance(v, list):
+        return ['list', json.dumps([eqval(x) for x in v])]
+    raise OutOfDomain(repr(v)[:60])
+
+
+# operands of IN / NOT IN (subquery) by table: (expression, datatype class).  `basic` are the five BQL datatypes with
+# a literal syntax, the others are what a ledger offers besides: untyped metadata values, amounts, positions,
+# inventories, sets, the NULL-typed constant.
+TYPED_OPERANDS = {
+    'postings': [('account', 'basic'), ('number', 'basic'), ('date', 'basic'), ('lineno', 'basic'), ('payee', 'basic'),
+                 ('cost_number', 'basic'), ("entry_meta('lineno')", 'untyped'), ("meta('lineno')", 'untyped'),
+                 ("any_meta('filename')", 'untyped'), ("entry_meta('nokey')", 'untyped'), ('position', 'struct'),
+                 ('units(position)', 'struct'), ('weight', 'struct'), ('cost(position)', 'struct'), ('price', 'struct'),
+                 ('tags', 'set'), ('other_accounts', 'set'), ('NULL', 'null')],
+    'entries': [('date', 'basic'), ('lineno', 'basic'), ('narration', 'basic'), ('type', 'basic'),
+                ("meta('lineno')", 'untyped'), ("meta('filename')", 'untyped'), ('tags', 'set'), ('links', 'set'),
+                ('NULL', 'null')],
+    'ob': [('n', 'basic'), ('s', 'basic'), ('o', 'untyped'), ('p', 'untyped'), ('g', 'set'), ('NULL', 'null')],
+}
+TYPED_COLUMN_ONLY = {'postings': [('balance', 'struct')]}     # as x under WHERE its value depends on the rows kept (C12)
+TYPED_FILTERS = {       # (WHERE / LIMIT clause of the subquery, returns no row for sure)
+    'postings': [('', False), ('WHERE number > {k}', False), ('WHERE month = {m}', False), ("WHERE account ~ 'Expenses'", False),
+                 ('WHERE number > 100000000', True), ("WHERE account ~ 'Nope'", True), ('LIMIT 0', True), ('WHERE year < 1000', True)],
+    'entries': [('', False), ("WHERE type = 'transaction'", False), ('WHERE month = {m}', False),
+                ("WHERE type = 'nope'", True), ('WHERE year < 1000', True), ('LIMIT 0', True)],
+    'ob': [('', False), ('WHERE n < 3', False), ('WHERE n >= {m}', False), ('WHERE n > 1000', True), ("WHERE s = 'nope'", True),
+           ('LIMIT 0', True)],
+}
+
+
+def object_table(rng):
+    """a user table with untyped (`object`) columns, like metadata values: strings, numbers, dates, amounts, NULLs"""
+    from beancount.core.amount import Amount
+    from harness import tables as ht
+    pool = ['one', 'two', '', decimal.Decimal('2'), decimal.Decimal('2.50'), 3, datetime.date(2020, 1, 4),
+            datetime.date(2022, 3, 1), Amount(decimal.Decimal('2.50'), 'USD'), Amount(decimal.Decimal('1'), 'EUR'), True, None, None]
+    sets = [frozenset(), frozenset({'a'}), frozenset({'a', 'b'}), frozenset({'b'}), None]
+    rows = []
+    for i in range(rng.choice([4, 9, 14])):
+        rows.append((rng.choice([None, 0, 1, 2, 3, 4, 7]), rng.choice(['one', 'two', 'x', None]), rng.choice(pool), rng.choice(pool),
+                     rng.choice(sets)))
+    return ht.HarnessTable('ob', [('n', 'int'), ('s', 'str'), ('o', 'object'), ('p', 'object'), ('g', 'set')], rows)
+
+
+def record_typed_in(ctx, f, conn, n, idbase):
+    """x IN / NOT IN (subquery) for operands of every datatype class the tables offer, with subqueries that do and do
+    not return rows, in the targets (one line "in": value per outer row) and in WHERE (one line "inwh": the rows
+    kept); the subquery's column and the outer x values are logged from separate plain statements"""
+    rng = ctx.rng
+    lines = 0
+    stats = {'typed_in_lines': 0, 'typed_in_empty_column': 0, 'typed_in_where': 0, 'typed_in_nonbasic': 0,
+             'typed_in_nonbasic_empty': 0, 'typed_in_true': 0, 'typed_in_skipped': 0}
+    for i in range(n):
+        table = rng.choice(['postings', 'postings', 'entries', 'ob'])
+        ops = TYPED_OPERANDS[table]
+        x, xcls = rng.choice(ops) if rng.random() < 0.3 else rng.choice([o for o in ops if o[1] != 'basic'])
+        # the subquery's column: the same expression (membership holds for some rows), or any other one
+        gtable = table if rng.random() < 0.8 else rng.choice(sorted(TYPED_OPERANDS))
+        gops = TYPED_OPERANDS[gtable] + TYPED_COLUMN_ONLY.get(gtable, [])
+        same = [o for o in gops if o[0] == x]
+        y, ycls = same[0] if same and rng.random() < 0.7 else rng.choice(gops)
+        flt, empty = rng.choice(TYPED_FILTERS[gtable])         # half of them return no row
+        flt = flt.format(k=rng.choice([0, 50, 500]), m=rng.choice([1, 1, 2, 3]))
+        g_t = ('SELECT %s AS c FROM #%s %s' % (y, gtable, flt)).strip()
+        neg = rng.random() < 0.5
+        op = 'NOT IN' if neg else 'IN'
+        inner = bm.run_raw(conn, bm.parsed(g_t))
+        xs = bm.run_raw(conn, bm.parsed('SELECT %s AS x FROM #%s' % (x, table)))
+        if inner[0] != 'ok' or xs[0] != 'ok':
+            raise MachineryError('typed IN template does not run: %s / %s: %s' % (x, g_t, (inner[1:], xs[1:])))
+        if empty and inner[2]:
+            raise MachineryError('subquery expected to return no row does: %s' % g_t)
+        try:
+            col = [eqval(r[0]) for r in inner[2]]
+            xv = [eqval(r[0]) for r in xs[2]]
+        except OutOfDomain:
+            ctx.skipped += 1
+            stats['typed_in_skipped'] += 1
+            continue
+        # equality of amounts / positions (beancount's classes) is defined among values of the same class only
+        # (Amount.__eq__ raises for a number or a string): such mixtures are outside the domain
+        tags = {v[0] for v in col + xv if v[0] != 'n'}
+        if len(tags) > 1 and any(t.startswith('tup') for t in tags):
+            ctx.skipped += 1
+            stats['typed_in_skipped'] += 1
+            continue
+        xv = [['n', 0] if v[0] == 'n' else v for v in xv]       # the law speaks of NULL x: the model's NULL
+        where = rng.random() < 0.4
+        if where:
+            t = 'SELECT %s AS x FROM #%s WHERE %s %s (%s)' % (x, table, x, op, g_t)
+        else:
+            t = 'SELECT %s AS x, %s %s (%s) AS r FROM #%s' % (x, x, op, g_t, table)
+        raw = bm.run_raw(conn, bm.parsed(t))
+        ev = {'id': idbase + i, 'neg': neg, 'text': t, 'xs': xv, 'col': col, 'family': 'typed-in:%s:%s' % (xcls, ycls)}
+        if raw[0] != 'ok':
+            ev = {'op': 'rel', 'id': idbase + i, 'text': t, 'nested': project_opaque(raw), 'mat': project_opaque(raw),
+                  'family': ev['family']}
+        elif where:
+            try:
+                kept = [eqval(r[0]) for r in raw[2]]
+            except OutOfDomain:
+                kept = [['ood', 'value outside the tables']]
+            ev.update(op='inwh', kept=[['n', 0] if v[0] == 'n' else v for v in kept])
+            stats['typed_in_where'] += 1
+        else:
+            ev.update(op='in', obs=[bm.to_spec(r[1], bm.StrTab()) for r in raw[2]])
+            if [r[0] for r in raw[2]] != [r[0] for r in xs[2]]:
+                ev['obs'] = ev['obs'] + [['ood', 'x column differs from the plain scan']]
+            stats['typed_in_true'] += sum(1 for r in raw[2] if r[1] is True)
+        f.write(json.dumps(ev) + '\n')
+        lines += 1
+        stats['typed_in_lines'] += 1
+        stats['typed_in_empty_column'] += not col
+        nonbasic = xcls != 'basic' or ycls != 'basic'
+        stats['typed_in_nonbasic'] += nonbasic
+        stats['typed_in_nonbasic_empty'] += nonbasic and not col
+        ctx.case('typed-in|%s|%s|%s|%s|%s' % (table, x, op, g_t, 'where' if where else 'target'))
+    ctx.leg('C2S', **stats)
+    for k in ('typed_in_empty_column', 'typed_in_where', 'typed_in_nonbasic', 'typed_in_nonbasic_empty', 'typed_in_true'):
+        if not stats[k]:
+            raise MachineryError('vacuity: typed IN family has %s = 0' % k)
+    return lines
+
+
 def validate(ctx, path, nlines, what):
     """replay one trace file through Trace_BQLSubquery; classify what it rejects"""
     res = ctx.tlc('Trace_BQLSubquery', 'Trace_BQLSubquery.cfg', leg='C2S', workers=1, env={'TRACE_FILE': path},
@@ -710,8 +862,15 @@ def validate(ctx, path, nlines, what):
             nknown_family += 1
         elif ev['op'] == 'in' and ev['id'] in known:
             pass        # the IN law on a statement already attributed to the listed defect through its query line
-        elif ev['op'] == 'in':
+        elif ev['op'] in ('in', 'inwh') and ev.get('family', '').startswith('typed-in'):
+            ctx.violation('c2s:in-law:%s:%s%s' % (ev['family'], 'where' if ev['op'] == 'inwh' else 'target', '' if ev['col'] else ':empty-column'),
+                          'x %s (q) %s differs from membership in the logged inner column (NULL for NULL x or a subquery without rows)'
+                          % ('NOT IN' if ev['neg'] else 'IN', 'in WHERE' if ev['op'] == 'inwh' else 'as a target'), case, 'C2S')
+        elif ev['op'] in ('in', 'inwh'):
             ctx.violation('c2s:in-law', 'x IN (q) differs from membership in the logged inner column', case, 'C2S')
+        elif ev.get('family', '').startswith('typed-in'):
+            ctx.violation('c2s:in-typed:%s:exception' % ev['family'], 'x IN (q) over operands of this datatype fails', case, 'C2S',
+                          'a result', ev['nested'])
         else:
             ctx.violation('c2s:rel', 'nested and materialised forms differ', case, 'C2S', ev['mat'], ev['nested'])
     ctx.traces += nlines - 1 - len(rejected)
@@ -748,10 +907,14 @@ def c2s(ctx):
         schemas = {n: list(c) for n, c in LEDGER_COLS.items()}
         n1, made = record_queries(ctx, f, conn, st, schemas, consts, ctx.pick(60, 250), 4, 5000000)
         n2 = record_ledger_rel(ctx, f, conn, ctx.pick(40, 200), 6000000)
+        conn.tables['ob'] = object_table(ctx.rng)
+        t0 = time.time()
+        n3 = record_typed_in(ctx, f, conn, ctx.pick(120, 600), 7000000)
+        ctx.leg('C2S', typed_in_record_s=round(time.time() - t0, 1))
     ctx.case('c2s-ledger', n=n1 + n2)
     ctx.leg('C2S', ledger_postings=len(tabs['postings']['rows']), ledger_entries=len(tabs['entries']['rows']),
-            ledger_modelled_lines=n1, ledger_relational_lines=n2)
-    validate(ctx, path, n1 + n2 + 1, 'ledger')
+            ledger_modelled_lines=n1, ledger_relational_lines=n2 + n3)
+    validate(ctx, path, n1 + n2 + n3 + 1, 'ledger')
 
 
 def run(ctx):
